@@ -16,9 +16,12 @@ func init() {
 	register("C14", genC14)
 }
 
-var keyPool = []string{"k1", "k2", "k3", "k4", "key-5"}
-var svcPool = []string{"s1", "s2", "s3", "svc_4"}
-var uriPool = []string{"HTTPS://Example.com/alice", "did:example:123#", "https://example.com/a b", "https://a.example/1", "https://a.example/2", "did:example:abc", "urn:uuid:1", "https://b.example/"}
+// "both-1" and "s1" are ids of a key AND of a service: ids are unique per list only
+var keyPool = []string{"k1", "k2", "k3", "k4", "key-5", "both-1", "s1"}
+var svcPool = []string{"s1", "s2", "s3", "svc_4", "both-1"}
+var uriPool = []string{"HTTPS://Example.com/alice", "did:example:123#", "https://example.com/a b", "https://a.example/1", "https://a.example/2", "did:example:abc", "urn:uuid:1", "https://b.example/",
+	// other spellings of entries above: the list holds URIs as written, never as net/url writes them back
+	"https://example.com/alice", "did:example:123", "https://example.com/a%20b", "HTTPS://b.example/"}
 
 func poolKey(r *rand.Rand, id string) M {
 	k := validKey(r, id)
